@@ -1,4 +1,5 @@
-package c31
+// Command c31: translation validation / correspondence for mathutil, fee, CoinHours (property C31).
+package main
 
 // C31: translation validation / correspondence for mathutil, fee, CoinHours.
 
@@ -26,8 +27,9 @@ var c31Sentinels = map[error]string{
 	coin.ErrAddEarnedCoinHoursAdditionOverflow: "ErrAddEarnedCoinHoursAdditionOverflow",
 }
 
-// Run is the c31 sub-command.
-func Run(args []string) error {
+func main() { Main(run) }
+
+func run(args []string) error {
 	f := ParseFlags("c31", args)
 	r := NewRng(f.Seed)
 	n := f.Budget(400, 20000)
